@@ -549,7 +549,9 @@ def check_property(pid, spec, tier, replay=None, keep=False):
                     if unit.get("kind") == "fuzz":
                         unit = [u for u in spec["units"] if u["test"] == unit["as_test"]][0]
                     candidates = [failf] * tries
-                    if tries > 1 and os.path.exists(failf + ".first"):
+                    if os.path.exists(failf + ".first"):
+                        # the first (unshrunk) failing case: shrinking can walk a case onto a boundary that moves with the
+                        # wall clock or the schedule and then no longer fails a moment later
                         candidates += [failf + ".first"] * tries
                     for attempt, cand in enumerate(candidates):
                         r2 = run_unit(work + "", pid, 1000 + uidx + 100 * attempt, unit, tier, base_seed, known_fps, replay=cand, repeat=unit.get("replay_repeat", 1))
